@@ -887,6 +887,9 @@ func (t *Table) put(op Op, pr *parsedReq) Result {
 	if t.keySizeError(op.Item) {
 		return Result{Spec: true, WeakWhy: "key attribute value longer than DynamoDB allows"}
 	}
+	if itemTooDeep(op.Item) {
+		return Result{Spec: true, WeakWhy: "document nested deeper than DynamoDB's 32 levels"}
+	}
 	t.Items[k] = CloneItem(op.Item)
 	return Result{}
 }
@@ -922,6 +925,9 @@ func (t *Table) update(op Op, pr *parsedReq) Result {
 	}
 	if t.keySizeError(ur.Item) {
 		return Result{Spec: true, WeakWhy: "key attribute value longer than DynamoDB allows"}
+	}
+	if itemTooDeep(ur.Item) {
+		return Result{Spec: true, WeakWhy: "document nested deeper than DynamoDB's 32 levels"}
 	}
 	t.Items[k] = ur.Item
 	return Result{Item: CloneItem(ur.Item)}
@@ -1181,4 +1187,41 @@ func (db *DB) TableNames() []string {
 	}
 	sort.Strings(out)
 	return out
+}
+
+// MaxNesting is DynamoDB's limit on the nesting depth of lists and maps.
+const MaxNesting = 32
+
+// avDepth is the number of nested list / map levels of a value.
+func avDepth(v AV) int {
+	d := 0
+	switch v.T {
+	case "L":
+		for _, e := range v.L {
+			if x := avDepth(e); x > d {
+				d = x
+			}
+		}
+		return d + 1
+	case "M":
+		for _, e := range v.M {
+			if x := avDepth(e); x > d {
+				d = x
+			}
+		}
+		return d + 1
+	}
+	return 0
+}
+
+// itemTooDeep reports whether an attribute of the item nests lists and maps
+// deeper than DynamoDB accepts. No listed property demands the rejection, so
+// the model marks such writes speculative.
+func itemTooDeep(it Item) bool {
+	for _, v := range it {
+		if avDepth(v) > MaxNesting {
+			return true
+		}
+	}
+	return false
 }
